@@ -316,10 +316,6 @@ Section Step.
   Definition is_runtime_error (r : res Z) : bool :=
     match r with Raise RuntimeError => true | _ => false end.
 
-  (* the named domain clause of finding D13: no lookup had its deque appended to between two `next` *)
-  Definition d13_clause (st : state) : bool :=
-    forallb (fun cr => negb (is_runtime_error (snd cr))) (all_outputs st).
-
   Definition all_finished (st : state) : bool := forallb finished (snd st).
 
   (* the actions a thread performs under a schedule (its "list of atomic actions") *)
@@ -370,8 +366,9 @@ Section Step.
     fold_left (fun st i => run (repeat i (coarse_fuel st)) st) (seq 0 (length (snd st))) st.
 End Step.
 
-(* the witness schedule of finding D13, in coarse form (tools/props/c13.py reads it and replays it
-   against the implementation): thread 1 fills the cache with key 10, thread 0 starts looking up key 11
+(* the witness schedule of the deque race (finding D13, repaired in /repo by iterating a snapshot), in
+   coarse form; tools/props/c13.py reads it and replays it against the implementation on every run
+   (it must fail there exactly when the generated configuration says "direct"): thread 1 fills the cache with key 10, thread 0 starts looking up key 11
    and is suspended inside the loop, thread 1 inserts key 12, thread 0 calls next(). *)
 Definition d13_site : site := if transpose_lookup_snapshot then SReshape else STranspose.
 Definition d13_threads (s : site) : list (list call) :=
